@@ -480,7 +480,8 @@ class Analysis:
                             "raw deref: %d byte(s) at offset %r within %r bytes" % (width, off, bl),
                             None if ok else {"offset": repr(off), "object_bytes": repr(bl)})
                 self.mem_log.append({"fn": fn.key, "site": fp, "obj": v.obj, "off": off, "width": width,
-                                     "write": None, "what": "deref", "loc": mir.stmt_loc(node), "objname": o.name})
+                                     "write": (node.get("s") == "assign" and p is node["lhs"]), "what": "deref",
+                                     "loc": mir.stmt_loc(node), "objname": o.name})
 
     def _deref_index(self, fn, node, place):
         idx = getattr(fn, "_deref_idx", None)
@@ -1796,12 +1797,13 @@ class Analysis:
 
     def _record_pass(self, fn, fid, inst, depth):
         """re-run each reached block once on its stable input, recording obligations"""
+        prev = self._rec
         self._rec = True
         try:
             for b, s_in in inst.items():
                 self.transfer_block(fn, fid, b, s_in.copy(), depth, record=True)
         finally:
-            self._rec = False
+            self._rec = prev
         # sites never reached in this context are discharged here (dead code in this context)
         for blk in fn.blocks:
             if blk["cleanup"] or blk["i"] in inst or blk["i"] not in fn.cfg.reach:
